@@ -359,6 +359,17 @@ func (w *World) exec(t []string) string {
 	}
 	w.setTag(t[0])
 	switch t[0] {
+	case "cx":
+		// `cx stress seed=S ms=M readers=R`: re-runs one history of the real-goroutine stress stream
+		if len(t) == 5 && t[1] == "stress" {
+			var sd int64
+			var ms, rd int
+			fmt.Sscanf(t[2], "seed=%d", &sd)
+			fmt.Sscanf(t[3], "ms=%d", &ms)
+			fmt.Sscanf(t[4], "readers=%d", &rd)
+			return stressOne(sd, time.Duration(ms)*time.Millisecond, rd)
+		}
+		return "bad-op"
 	case "reset":
 		reseed()
 		*w = *newWorld()
